@@ -278,7 +278,7 @@ func (m *Metric) DeclSource() string {
 		sb.WriteString(" by " + strings.Join(ks, ", "))
 	}
 	if m.As != "" {
-		sb.WriteString(" as \"" + m.As + "\"")
+		sb.WriteString(" as \"" + strings.ReplaceAll(m.As, "\"", "\\\"") + "\"")
 	}
 	if m.Limit > 0 {
 		sb.WriteString(" limit " + strconv.Itoa(m.Limit))
